@@ -246,6 +246,7 @@ inductive HOp2
   | addRef (o j : Nat)                            -- `objs[o] + objs[j]` (a new block; nothing changes)
   | newFrom (o j : Nat) (isComment : Bool)        -- `objs[o] = TextBlock(objs[j])` / `Comment(objs[j])`
   | appendLinesOf (o j : Nat)                     -- `objs[o].append(objs[j].lines)`
+  | newWithHeader (o j k : Nat)                   -- `objs[o] = TextBlock(objs[j], header=objs[k])`
   deriving Repr, Inhabited
 
 def objAt (objs : List TObj) (i : Nat) : TObj := objs.getD i {}
@@ -265,6 +266,7 @@ def step2 (objs : List TObj) : HOp2 → List TObj × Option (List Str)
   | .appendLinesOf o j =>
     let x := objAt objs o
     (objs.set o { x with tb := x.tb.append (.list ((objAt objs j).tb.lines.map .str)) }, none)
+  | .newWithHeader o j k => (objs.set o (TObj.new false (objAt objs j).asBlock (objAt objs k).asBlock), none)
 
 /-- after every step: lines and string form of EVERY object, and the extra result -/
 def run2 (objs : List TObj) : List HOp2 → List (List (List Str × Str) × Option (List Str))
